@@ -14,6 +14,7 @@ import (
 
 	"google.golang.org/protobuf/proto"
 	"google.golang.org/protobuf/reflect/protoreflect"
+	"google.golang.org/protobuf/runtime/protoiface"
 )
 
 type fakeED struct {
@@ -259,6 +260,33 @@ func (l *fakeList) Append(v protoreflect.Value)  { l.items = append(l.items, v) 
 func (l *fakeList) Len() int                     { return len(l.items) }
 func (l *fakeList) Get(i int) protoreflect.Value { return l.items[i] }
 
+type fakeMsgType struct{ md *fakeMD }
+
+func (t fakeMsgType) New() protoreflect.Message                  { return newFakeMsg(t.md) }
+func (t fakeMsgType) Zero() protoreflect.Message                 { return newFakeMsg(t.md) }
+func (t fakeMsgType) Descriptor() protoreflect.MessageDescriptor { return t.md }
+
+type fakeNumbers struct{ protoreflect.FieldNumbers }
+
+func (fakeNumbers) Len() int                          { return 0 }
+func (fakeNumbers) Has(protoreflect.FieldNumber) bool { return false }
+
+type fakeOneofs struct{ protoreflect.OneofDescriptors }
+
+func (fakeOneofs) Len() int { return 0 }
+
+type fakeRanges struct{ protoreflect.FieldRanges }
+
+func (fakeRanges) Len() int                          { return 0 }
+func (fakeRanges) Has(protoreflect.FieldNumber) bool { return false }
+
+func (m *fakeMD) RequiredNumbers() protoreflect.FieldNumbers { return fakeNumbers{} }
+func (m *fakeMD) Oneofs() protoreflect.OneofDescriptors      { return fakeOneofs{} }
+func (m *fakeMD) ExtensionRanges() protoreflect.FieldRanges  { return fakeRanges{} }
+func (m *fakeMD) ReservedRanges() protoreflect.FieldRanges   { return fakeRanges{} }
+func (m *fakeMD) Parent() protoreflect.Descriptor            { return nil }
+func (m *fakeMD) Index() int                                 { return 0 }
+
 // fakeMsg implements proto.Message and protoreflect.Message over a fakeMD.
 type fakeMsg struct {
 	protoreflect.Message
@@ -313,6 +341,20 @@ func (m *fakeMsg) Range(f func(protoreflect.FieldDescriptor, protoreflect.Value)
 		}
 	}
 }
+func (m *fakeMsg) ProtoMethods() *protoiface.Methods { return nil }
+func (m *fakeMsg) Type() protoreflect.MessageType    { return fakeMsgType{m.md} }
+func (m *fakeMsg) NewField(fd protoreflect.FieldDescriptor) protoreflect.Value {
+	f := fd.(*fakeFD)
+	switch {
+	case f.list:
+		return protoreflect.ValueOfList(&fakeList{})
+	case f.isMap:
+		return protoreflect.ValueOfMap(&fakeMap{})
+	case f.msg != nil:
+		return protoreflect.ValueOfMessage(newFakeMsg(f.msg))
+	}
+	return f.Default()
+}
 func (m *fakeMsg) GetUnknown() protoreflect.RawFields                                   { return nil }
 func (m *fakeMsg) SetUnknown(protoreflect.RawFields)                                    {}
 func (m *fakeMsg) New() protoreflect.Message                                            { return newFakeMsg(m.md) }
@@ -321,7 +363,20 @@ func (m *fakeMsg) WhichOneof(protoreflect.OneofDescriptor) protoreflect.FieldDes
 func (m *fakeMsg) Set(fd protoreflect.FieldDescriptor, v protoreflect.Value) {
 	m.own(fd)
 	m.sets++
-	m.vals[string(fd.Name())] = v
+	f := fd.(*fakeFD)
+	switch {
+	case f.list:
+		if l, ok := v.List().(*fakeList); ok {
+			m.lists[f.name] = l
+			return
+		}
+	case f.msg != nil && !f.isMap:
+		if sub, ok := v.Message().(*fakeMsg); ok {
+			m.subs[f.name] = sub
+			return
+		}
+	}
+	m.vals[f.name] = v
 }
 func (m *fakeMsg) Get(fd protoreflect.FieldDescriptor) protoreflect.Value {
 	m.own(fd)
